@@ -127,6 +127,10 @@ def tool_pipelines(ctx, findings, res):
                 w = asyncio.run(WriteTool().execute(target_path=p, content=text))
                 if w.get("status") == "success":
                     chk("octave_write(content)", open(p, encoding="utf-8", newline="").read())
+                    pl = os.path.join(td, f"zl{k}.oct.md")
+                    wl = asyncio.run(WriteTool().execute(target_path=pl, content=r["ltext"] if "err" not in r["l"]["pw"] else text, lenient=True))
+                    if wl.get("status") == "success":
+                        chk("octave_write(lenient=true)", open(pl, encoding="utf-8", newline="").read())
                     w2 = asyncio.run(WriteTool().execute(target_path=p))
                     if w2.get("status") == "success":
                         chk("octave_write(normalize)", open(p, encoding="utf-8", newline="").read())
@@ -190,6 +194,6 @@ def run(ctx: vlib.Ctx):
             zi = TC.zones_of(pw["doc"]) if "doc" in pw else pw.get("err")
             if zm != zi:
                 X.corr(ctx, {"text": text}, "literal zones (path, content, tag, fence) / exception", zm, zi)
-    tool_pipelines(ctx, findings, res[: ctx.budget(60, 800)])
+    tool_pipelines(ctx, findings, res[: ctx.budget(120, 1200)])
     ctx.assumptions = ["file-based pipelines are driven with newline='' so that no universal-newline translation is involved (F18 candidate, outside the listed alphabet)",
                        "normaliser/emitter zone lemmas are proved (Props/C05); the end-to-end zone theorem is an open proof target"]
